@@ -328,6 +328,8 @@ class History(object):
         self.pre = []             # script lines to put before the next call (environment creation / deletion)
         self.lazy = []            # indexes of environments created in the course of the history
         self.collected = 0        # released source environments that were really garbage-collected
+        self.strict_err = False   # same request => same exception class too
+        self.model = True         # replayed in the Coq model (False: entry points outside the model, oracle only)
         self.released_n = 0
 
     # ------------------------------------------------------------------ helpers
@@ -426,7 +428,7 @@ class History(object):
             E.pool_ids.add(id(n))
         # same request, same outcome (route independence), except FreshSymbol
         if reqkey is not None and not fresh:
-            out = ("node", id(n)) if n is not None else ("err",)
+            out = ("node", id(n)) if n is not None else (("err", err) if self.strict_err else ("err",))
             old = E.outcomes.get(reqkey)
             if old is None:
                 E.outcomes[reqkey] = (out, idx)
